@@ -46,6 +46,12 @@ Lemma flat_map_firstn_skipn {A B} (f : A -> list B) (k : nat) (l : list A) :
   flat_map f (firstn k l) ++ flat_map f (skipn k l) = flat_map f l.
 Proof. rewrite <- flat_map_app, firstn_skipn. reflexivity. Qed.
 
+Lemma skipn_add {A} (k n : nat) (l : list A) : skipn (k + n) l = skipn n (skipn k l).
+Proof.
+  revert l. induction k as [|k IH]; intros l; [reflexivity|].
+  destruct l as [|x l]; cbn [Nat.add skipn]; [destruct n; reflexivity|apply IH].
+Qed.
+
 Lemma removelast_snoc {A} (l : list A) (x : A) : removelast (l ++ [x]) = l.
 Proof. apply removelast_last. Qed.
 
@@ -286,3 +292,1267 @@ Qed.
 Lemma erase_apply_items e b s :
   genadd (snd (apply_items e b s)) = false -> erase (fst (apply_items e b s)) = erase b.
 Proof. apply erase_apply_items_from. apply Forall_forall. intros. apply erase_apply_item; auto. Qed.
+
+(* ------------------------------------------------------------------------------------------ *)
+(* the collector: TypeVar statements it keeps are `X = TypeVar(...)` assignments *)
+
+Lemma collect_item_Cls imp n h bs b c :
+  collect_item imp (Cls n h bs b) c =
+  let c1 := c_push [n] c in
+  let c2 := c_use imp bs c1 in
+  let c3 := mkC (cq c2) (cfuns c2) (cattrs c2)
+                (dict_set N.eqb n (Cls n h (map dq_expr bs) b) (cclasses c2))
+                (ctvs c2) (cnames c2) (cneeds c2)
+                (cerr c2 || existsb (fun b => match b with EStr _ | EOther _ _ => true | _ => false end) bs) in
+  c_pop (collect_items imp b c3).
+Proof. simpl. rewrite collect_go_eq. reflexivity. Qed.
+
+Lemma collect_item_Block imp i b c : collect_item imp (Block i b) c = collect_items imp b c.
+Proof. simpl. rewrite collect_go_eq. reflexivity. Qed.
+
+(* a generic invariant principle for the collector: an invariant I of the state that is re-established
+   at each recording step, for stubs all of whose visited items satisfy a hereditary predicate G *)
+Section CollectInv.
+  Variable imp : list (N * path).
+  Variable I : cstate -> Prop.
+  Variable G : item -> Prop.
+  Hypothesis G_cls : forall n h bs b, G (Cls n h bs b) -> Forall G b.
+  Hypothesis G_block : forall i b, G (Block i b) -> Forall G b.
+  Hypothesis I_push : forall p c, I c -> I (c_push p c).
+  Hypothesis I_pop : forall c, I c -> I (c_pop c).
+  Hypothesis I_use : forall es c, I c -> I (c_use imp es c).
+  Hypothesis I_cls : forall n h bs b c er, I c ->
+    I (mkC (cq c) (cfuns c) (cattrs c) (dict_set N.eqb n (Cls n h (map dq_expr bs) b) (cclasses c))
+           (ctvs c) (cnames c) (cneeds c) er).
+  Hypothesis I_fun : forall n d ps r b c, G (Fun n d ps r b) -> I c ->
+    I (mkC (cq c) (((qname (cq c), shape_of ps), (dq_params ps, option_map dq_expr r)) :: cfuns c) (cattrs c)
+           (cclasses c) (ctvs c) (cnames c) (cneeds c) (cerr c)).
+  Hypothesis I_ann : forall t a v c, G (AnnAssign t a v) -> I c ->
+    I (mkC (cq c) (cfuns c) ((qname (cq c), dq_expr a) :: cattrs c)
+           (cclasses c) (ctvs c) (cnames c) (cneeds c) (cerr c)).
+  Hypothesis I_err : forall c, I c ->
+    I (mkC (cq c) (cfuns c) (cattrs c) (cclasses c) (ctvs c) (cnames c) (cneeds c) true).
+  Hypothesis I_tv : forall ts v nm c, vtv v = true -> I c ->
+    I (mkC (cq c) (cfuns c) (cattrs c) (cclasses c) (dict_set path_eqb nm (Assign ts v) (ctvs c)) (cnames c)
+           (cneeds c ++ [([id_typing], id_TypeVar)]) (cerr c)).
+
+  Lemma collect_items_inv_from b :
+    Forall (fun it => G it -> forall c, I c -> I (collect_item imp it c)) b ->
+    Forall G b -> forall c, I c -> I (collect_items imp b c).
+  Proof.
+    induction 1 as [|x b Hx Hb IH]; intros HG c Hc; cbn [collect_items]; auto.
+    inversion HG; subst. auto.
+  Qed.
+
+  Lemma collect_item_inv it : G it -> forall c, I c -> I (collect_item imp it c).
+  Proof.
+    induction it using item_ind'; intros HG c Hc; try exact Hc.
+    - cbn [collect_item]. apply I_pop. apply (I_fun n d ps r b (c_use imp _ (c_push [n] c))); auto.
+    - rewrite collect_item_Cls. cbn zeta. apply I_pop. apply collect_items_inv_from; [exact H|eauto|].
+      apply I_cls with (c := c_use imp bs (c_push [n] c)). auto.
+    - cbn [collect_item]. destruct (vtv v) eqn:Ev; [|exact Hc].
+      destruct ts as [|t ts]; [exact Hc|]. destruct (tname t); [|exact Hc]. apply I_tv; auto.
+    - cbn [collect_item]. destruct (tname t).
+      + apply I_pop. apply (I_ann t a v (c_use imp [a] (c_push p c))); auto.
+      + apply I_err; auto.
+    - rewrite collect_item_Block. apply collect_items_inv_from; eauto.
+  Qed.
+
+  Lemma collect_items_inv b c : Forall G b -> I c -> I (collect_items imp b c).
+  Proof.
+    intros HG. apply collect_items_inv_from; auto. apply Forall_forall. intros. apply collect_item_inv; auto.
+  Qed.
+End CollectInv.
+
+Lemma ctvs_assign imp s :
+  Forall (fun kv => exists ts v, snd kv = Assign ts v /\ vtv v = true) (ctvs (collect_items imp s c0)).
+Proof.
+  apply collect_items_inv with
+    (I := fun c => Forall (fun kv => exists ts v, snd kv = Assign ts v /\ vtv v = true) (ctvs c))
+    (G := fun _ => True); try (intros; assumption).
+  - intros. apply Forall_forall. auto.
+  - intros. apply Forall_forall. auto.
+  - intros ts v nm c Hv Hc. cbn [ctvs]. apply Forall_forall. intros [k it] Hin.
+    apply dict_set_In in Hin. destruct Hin as [Heq|Hin].
+    + inversion Heq; subst. cbn [snd]. eauto.
+    + rewrite Forall_forall in Hc. apply (Hc _ Hin).
+  - apply Forall_forall. auto.
+  - constructor.
+Qed.
+
+Lemma ctvs_erased imp s :
+  Forall (fun kv => erase_item (Added (snd kv)) = []) (ctvs (collect_items imp s c0)).
+Proof.
+  eapply Forall_impl; [|apply ctvs_assign]. intros kv (ts & v & -> & Hv). cbn [erase_item]. rewrite Hv. reflexivity.
+Qed.
+
+Lemma cclasses_cls imp s :
+  Forall (fun kd => exists n h bs b, snd kd = Cls n h bs b) (cclasses (collect_items imp s c0)).
+Proof.
+  apply collect_items_inv with
+    (I := fun c => Forall (fun kd => exists n h bs b, snd kd = Cls n h bs b) (cclasses c))
+    (G := fun _ => True); try (intros; assumption).
+  - intros. apply Forall_forall. auto.
+  - intros. apply Forall_forall. auto.
+  - intros n h bs b c er Hc. cbn [cclasses]. apply Forall_forall. intros [k it] Hin.
+    apply dict_set_In in Hin. destruct Hin as [Heq|Hin].
+    + inversion Heq; subst. cbn [snd]. eauto.
+    + rewrite Forall_forall in Hc. apply (Hc _ Hin).
+  - apply Forall_forall. auto.
+  - constructor.
+Qed.
+
+(* ------------------------------------------------------------------------------------------ *)
+(* imports: when every requested import is from typing, erase removes exactly what was added *)
+
+Definition typing_mod {A} (mw : path * A) : Prop := is_typing (fst mw) = true.
+
+Lemma erase_app a b : erase (a ++ b) = erase a ++ erase b.
+Proof. apply flat_map_app. Qed.
+
+Lemma merge_into_block_erase blk : forall work,
+  Forall typing_mod work ->
+  erase (fst (merge_into_block blk work)) = erase blk /\ Forall typing_mod (snd (merge_into_block blk work)).
+Proof.
+  induction blk as [|x blk IH]; intros work Hw; cbn [merge_into_block fst snd]; [split; auto|].
+  assert (Hdef : forall w, Forall typing_mod w ->
+            erase (x :: fst (merge_into_block blk w)) = erase (x :: blk) /\
+            Forall typing_mod (snd (merge_into_block blk w))).
+  { intros w Hw'. destruct (IH w Hw') as [H1 H2]. split; auto.
+    unfold erase in *. cbn [flat_map]. rewrite H1. reflexivity. }
+  destruct x; try (specialize (Hdef work Hw); destruct (merge_into_block blk work); exact Hdef).
+  destruct from; [|specialize (Hdef work Hw); destruct (merge_into_block blk work); exact Hdef].
+  destruct (dict_get path_eqb module work) as [objs|] eqn:Eg;
+    [|specialize (Hdef work Hw); destruct (merge_into_block blk work); exact Hdef].
+  apply dict_get_In in Eg. destruct Eg as (k' & Hin & Hk). apply path_eqb_eq in Hk. subst k'.
+  assert (Ht : is_typing module = true).
+  { rewrite Forall_forall in Hw. apply (Hw _ Hin). }
+  set (w' := filter _ work).
+  assert (Hw' : Forall typing_mod w').
+  { subst w'. apply Forall_forall. intros y Hy. apply filter_In in Hy. destruct Hy as [Hy _].
+    rewrite Forall_forall in Hw. auto. }
+  destruct (IH w' Hw') as [H1 H2]. destruct (merge_into_block blk w') as [r' w''].
+  cbn [fst snd] in *. split; auto.
+  unfold erase in *. cbn [flat_map erase_item]. rewrite Ht, H1. reflexivity.
+Qed.
+
+Lemma insert_path_In m x l : In m (insert_path x l) -> m = x \/ In m l.
+Proof.
+  induction l as [|y l IH]; cbn [insert_path].
+  - intros [H|[]]; auto.
+  - destruct (path_eqb x y); [auto|]. destruct (path_leb x y).
+    + intros [H|H]; auto.
+    + intros [H|H]; [right; left; auto|]. destruct (IH H); auto. right; right; auto.
+Qed.
+
+Lemma import_work_typing needs p :
+  Forall typing_mod needs -> Forall typing_mod (import_work needs p).
+Proof.
+  intros Hn. unfold import_work. apply Forall_forall. intros [m objs] Hin.
+  apply in_flat_map in Hin. destruct Hin as (m' & Hm' & Hin).
+  assert (Hmods : forall l, In m' (fold_right insert_path [] l) -> In m' l).
+  { induction l as [|y l IHl]; cbn [fold_right]; auto. intros H.
+    apply insert_path_In in H. destruct H; [left; auto|right; auto]. }
+  apply Hmods in Hm'. apply in_map_iff in Hm'. destruct Hm' as ([m2 o2] & Heq & Hin2).
+  cbn [fst] in Heq. subst m2.
+  match type of Hin with In _ (match ?l with _ => _ end) => destruct l end; [destruct Hin|].
+  destruct Hin as [Heq|[]]. inversion Heq; subst.
+  rewrite Forall_forall in Hn. apply (Hn _ Hin2).
+Qed.
+
+Lemma erase_add_imports needs orig core :
+  Forall typing_mod needs -> erase (add_imports needs orig core) = erase core.
+Proof.
+  intros Hn. unfold add_imports.
+  set (k := skip_first orig). set (n := length (top_block orig)).
+  pose proof (merge_into_block_erase (firstn n (skipn k core)) (import_work needs orig)
+                                     (import_work_typing needs orig Hn)) as [H1 H2].
+  destruct (merge_into_block (firstn n (skipn k core)) (import_work needs orig)) as [blk' rest].
+  cbn [fst snd] in *.
+  rewrite !erase_app, H1.
+  assert (Ha : erase (map (fun mw : path * list N => Added (Import true (fst mw) [] (snd mw) 0)) rest) = []).
+  { clear -H2. induction H2 as [|mw rest Hmw _ IH]; [reflexivity|].
+    unfold erase in *. cbn [map flat_map erase_item]. unfold typing_mod in Hmw. rewrite Hmw, IH. reflexivity. }
+  rewrite Ha. cbn [app].
+  rewrite (skipn_add k n core).
+  rewrite <- !erase_app. rewrite (firstn_skipn n (skipn k core)), (firstn_skipn k core). reflexivity.
+Qed.
+
+(* ------------------------------------------------------------------------------------------ *)
+(* merge_erases_to_original (partial: no class injected, no Generic base appended, typing imports only) *)
+
+Lemma forallb_typing needs :
+  forallb (fun mn : path * N => is_typing (fst mn)) needs = true -> Forall typing_mod needs.
+Proof. intros H. apply Forall_forall. intros x Hx. rewrite forallb_forall in H. apply (H _ Hx). Qed.
+
+Lemma merge_erases_lemma v p s :
+  m_generic (merge v p s) = false -> m_fresh (merge v p s) = [] ->
+  needs_typing_only (merge v p s) = true ->
+  erase (m_out (merge v p s)) = erase p.
+Proof.
+  unfold needs_typing_only, merge.
+  set (s' := filter_stub v s). set (imp := stub_imports s'). set (c := collect_items imp s' c0).
+  set (e := mkE _ _ _ _).
+  pose proof (erase_apply_items e p a0) as Hcore.
+  destruct (apply_items e p a0) as [core st]. cbn [fst snd] in Hcore.
+  cbn [m_out m_generic m_fresh m_needs].
+  intros Hg Hf Hn.
+  match goal with |- context [if ?c then _ else _] => destruct c end; [|reflexivity].
+  apply forallb_typing in Hn.
+  rewrite !erase_app.
+  set (wi := add_imports (cneeds c) p core).
+  (* the inserted statements all vanish under erase *)
+  match goal with |- context [erase (map ?f (decls st))] =>
+    assert (H1 : erase (map f (decls st)) = [])
+  end.
+  { induction (decls st) as [|kd l IH]; [reflexivity|]. unfold erase in *. cbn [map flat_map erase_item].
+    exact IH. }
+  match goal with |- context [erase (map ?f (filter ?g1 (filter ?g2 (ctvs c))))] =>
+    assert (H2 : erase (map f (filter g1 (filter g2 (ctvs c)))) = [])
+  end.
+  { pose proof (ctvs_erased imp s') as Ht. fold c in Ht.
+    assert (Hsub : forall l, Forall (fun kv : path * item => erase_item (Added (snd kv)) = []) l ->
+                             erase (map (fun kv : path * item => Added (snd kv)) l) = []).
+    { induction 1 as [|kv l Hkv _ IH]; [reflexivity|]. unfold erase in *. cbn [map flat_map].
+      rewrite Hkv, IH. reflexivity. }
+    apply Hsub. apply Forall_forall. intros kv Hin.
+    apply filter_In in Hin. destruct Hin as [Hin _]. apply filter_In in Hin. destruct Hin as [Hin _].
+    rewrite Forall_forall in Ht. auto. }
+  match type of Hf with map fst ?l = [] => assert (H3 : l = []) by (destruct l; [reflexivity|discriminate]) end.
+  clear Hf.
+  rewrite H3, H1, H2. cbn [map erase flat_map app].
+  fold (erase (firstn (split_loc wi) wi)). fold (erase (skipn (split_loc wi) wi)).
+  rewrite <- erase_app, firstn_skipn. subst wi.
+  rewrite erase_add_imports by exact Hn. apply Hcore. exact Hg.
+Qed.
+
+(* ------------------------------------------------------------------------------------------ *)
+(* slots: the annotation pass keeps every slot in place, keeps existing annotations, and fills an
+   empty return / variable slot only with (a quoting of) some return / attribute of the stub table *)
+
+Definition same_key (sl sl' : slot) : Prop :=
+  s_qn sl = s_qn sl' /\ s_shape sl = s_shape sl' /\ s_which sl = s_which sl'.
+
+Definition R (e : env) (sl sl' : slot) : Prop :=
+  same_key sl sl' /\
+  match s_ann sl with
+  | Some a => s_ann sl' = Some a
+  | None =>
+      match s_ann sl' with
+      | None => True
+      | Some a =>
+          (s_which sl = WRet -> exists key fa a0, In (key, fa) (efuns e) /\ snd fa = Some a0 /\ same_ann a a0) /\
+          (s_which sl = WVar -> exists q a0, In (q, a0) (eattrs e) /\ same_ann a a0)
+      end
+  end.
+
+Lemma R_refl e sl : R e sl sl.
+Proof. unfold R, same_key. split; auto. destruct (s_ann sl); auto. Qed.
+
+Lemma Forall2_refl {A} (Q : A -> A -> Prop) (l : list A) : (forall x, Q x x) -> Forall2 Q l l.
+Proof. intros H. induction l; constructor; auto. Qed.
+
+Lemma Forall2_flat_map {A B} (Q : B -> B -> Prop) (f g : A -> list B) (l l' : list A) :
+  Forall2 (fun x y => Forall2 Q (f x) (g y)) l l' -> Forall2 Q (flat_map f l) (flat_map g l').
+Proof. induction 1; cbn [flat_map]; [constructor|]. apply Forall2_app; auto. Qed.
+
+Lemma quote_same gn vis a : same_ann (quote gn vis a) a.
+Proof.
+  unfold quote, same_ann. destruct a; auto.
+  destruct (memN n gn && negb (memN n vis)); [right; eauto|left; auto].
+Qed.
+
+Lemma upd_param_name gn vis p a : pname (upd_param gn vis p a) = pname p.
+Proof. unfold upd_param. destruct (pann p), a; reflexivity. Qed.
+
+Lemma upd_positional_length gn vis ps qs : length (upd_positional gn vis ps qs) = length ps.
+Proof.
+  revert qs. induction ps as [|p ps IH]; intros [|q qs]; cbn [upd_positional length]; auto.
+Qed.
+
+Lemma shape_update gn vis ps qs : shape_of (update_parameters gn vis ps qs) = shape_of ps.
+Proof.
+  unfold shape_of, update_parameters. cbn [posonly pos star kwonly kwstar].
+  rewrite !upd_positional_length. f_equal.
+  unfold upd_named. rewrite map_map. f_equal. apply map_ext. intros. apply upd_param_name.
+Qed.
+
+Lemma R_param e qn sh w gn vis p a :
+  w <> WRet -> w <> WVar ->
+  R e (mkSlot qn (Some sh) w (pann p)) (mkSlot qn (Some sh) w (pann (upd_param gn vis p a))).
+Proof.
+  intros H1 H2. unfold R, same_key. cbn [s_qn s_shape s_which s_ann]. split; auto.
+  unfold upd_param. destruct (pann p) eqn:E; [rewrite E; reflexivity|].
+  destruct a; cbn [pann]; [|rewrite E; auto]. split; intros; congruence.
+Qed.
+
+Lemma pslots_R e qn sh mk gn vis : (forall i, mk i <> WRet /\ mk i <> WVar) ->
+  forall ps qs i, Forall2 (R e) (pslots qn sh mk i ps) (pslots qn sh mk i (upd_positional gn vis ps qs)).
+Proof.
+  intros Hmk. induction ps as [|p ps IH]; intros [|q qs] i; cbn [upd_positional pslots];
+    try (apply Forall2_refl; apply R_refl).
+  constructor; [|apply IH]. apply R_param; apply Hmk.
+Qed.
+
+Lemma R_fun_slots e qn ps r gn vis qs r' :
+  (match r with
+   | Some a => r' = Some a
+   | None => match r' with
+             | None => True
+             | Some a => exists key fa a0, In (key, fa) (efuns e) /\ snd fa = Some a0 /\ same_ann a a0
+             end
+   end) ->
+  Forall2 (R e) (fun_slots qn ps r) (fun_slots qn (update_parameters gn vis ps qs) r').
+Proof.
+  intros Hr. unfold fun_slots. rewrite shape_update.
+  cbn [update_parameters posonly pos star kwonly kwstar].
+  constructor.
+  { unfold R, same_key. cbn [s_qn s_shape s_which s_ann]. split; auto.
+    destruct r; auto. destruct r'; auto. split; [auto|discriminate]. }
+  repeat apply Forall2_app; try (apply Forall2_refl; apply R_refl).
+  - apply pslots_R. intros; split; discriminate.
+  - apply pslots_R. intros; split; discriminate.
+  - unfold upd_named. rewrite map_map.
+    induction (kwonly ps) as [|p l IH]; cbn [map]; constructor; auto.
+    rewrite upd_param_name. apply R_param; discriminate.
+Qed.
+
+Lemma R_apply_fun e n d ps r b s ch :
+  Forall2 (R e) (slots ch (Fun n d ps r b)) (slots ch (fst (apply_fun e n d ps r b s))).
+Proof.
+  unfold apply_fun. destruct (dict_get _ _ _) as [fa|] eqn:Eg; [|apply Forall2_refl; apply R_refl].
+  destruct (match_signatures ps r fa); [|apply Forall2_refl; apply R_refl].
+  cbn [fst slots]. apply Forall2_app; [|apply Forall2_refl; apply R_refl].
+  apply R_fun_slots. destruct r; auto. destruct (snd fa) as [a0|] eqn:Ea; auto.
+  apply dict_get_In in Eg. destruct Eg as (k' & Hin & _).
+  exists k', fa, a0. repeat split; auto. apply quote_same.
+Qed.
+
+Lemma R_apply_assign e ts v s ch :
+  Forall2 (R e) (slots ch (Assign ts v)) (slots ch (fst (apply_assign e ts v s))).
+Proof.
+  unfold apply_assign. set (s0 := if vtv v then _ else s). clearbody s0.
+  destruct ts as [|t [|t2 ts]]; try (apply Forall2_refl; apply R_refl).
+  destruct t as [n|k nm i].
+  - cbn zeta. destruct (dict_get _ _ _) as [a|] eqn:Eg; [destruct (mem_path _ _)|];
+      try (apply Forall2_refl; apply R_refl).
+    cbn [fst slots tname]. constructor; [|constructor].
+    unfold R, same_key. cbn [s_qn s_shape s_which s_ann]. split; auto. split; [discriminate|].
+    intros _. apply dict_get_In in Eg. destruct Eg as (k' & Hin & _).
+    exists k', a. split; auto. apply quote_same.
+  - destruct k; [destruct nm| |]; apply Forall2_refl; apply R_refl.
+Qed.
+
+Lemma R_apply_items_from e b :
+  Forall (fun it => forall s ch, Forall2 (R e) (slots ch it) (slots ch (fst (apply_item e it s)))) b ->
+  forall s ch, Forall2 (R e) (flat_map (slots ch) b) (flat_map (slots ch) (fst (apply_items e b s))).
+Proof.
+  induction 1 as [|x b Hx Hb IH]; intros s ch; cbn [apply_items]; [constructor|].
+  specialize (Hx s ch). destruct (apply_item e x s) as [x' s'].
+  specialize (IH s' ch). destruct (apply_items e b s') as [b' s''].
+  cbn [fst flat_map] in *. apply Forall2_app; auto.
+Qed.
+
+Lemma R_apply_item e it :
+  forall s ch, Forall2 (R e) (slots ch it) (slots ch (fst (apply_item e it s))).
+Proof.
+  induction it using item_ind'; intros s ch; try (apply Forall2_refl; apply R_refl).
+  - apply R_apply_fun.
+  - rewrite apply_item_Cls.
+    pose proof (R_apply_items_from e b H (a_push [n] s) (ext ch [n])) as Hb.
+    destruct (apply_items e b (a_push [n] s)) as [b' s2]. cbn [fst] in Hb. cbn zeta.
+    dmatch; cbn [fst slots]; exact Hb.
+  - apply R_apply_assign.
+  - rewrite apply_item_Block.
+    pose proof (R_apply_items_from e b H s ch) as Hb.
+    destruct (apply_items e b s) as [b' s']. exact Hb.
+Qed.
+
+Lemma R_apply_items e b s ch :
+  Forall2 (R e) (flat_map (slots ch) b) (flat_map (slots ch) (fst (apply_items e b s))).
+Proof. apply R_apply_items_from. apply Forall_forall. intros. apply R_apply_item. Qed.
+
+(* inserted statements and import edits carry no slots *)
+Lemma slots_merge_into_block ch blk : forall work,
+  flat_map (slots ch) (fst (merge_into_block blk work)) = flat_map (slots ch) blk.
+Proof.
+  induction blk as [|x blk IH]; intros work; cbn [merge_into_block]; [reflexivity|].
+  assert (Hdef : forall w, flat_map (slots ch) (x :: fst (merge_into_block blk w)) = flat_map (slots ch) (x :: blk)).
+  { intros w. cbn [flat_map]. rewrite IH. reflexivity. }
+  destruct x; try (specialize (Hdef work); destruct (merge_into_block blk work); exact Hdef).
+  destruct from; [|specialize (Hdef work); destruct (merge_into_block blk work); exact Hdef].
+  destruct (dict_get path_eqb module work);
+    [|specialize (Hdef work); destruct (merge_into_block blk work); exact Hdef].
+  specialize (IH (filter (fun mw : path * list N => negb (path_eqb (fst mw) module)) work)).
+  destruct (merge_into_block blk _) as [r' w'']. cbn [fst flat_map slots app] in *. exact IH.
+Qed.
+
+Lemma slots_all_added {A} ch (f : A -> item) (l : list A) :
+  flat_map (slots ch) (map (fun x => Added (f x)) l) = [].
+Proof. induction l; cbn [map flat_map slots app]; auto. Qed.
+
+Lemma slots_add_imports ch needs orig core :
+  flat_map (slots ch) (add_imports needs orig core) = flat_map (slots ch) core.
+Proof.
+  unfold add_imports.
+  set (k := skip_first orig). set (n := length (top_block orig)).
+  pose proof (slots_merge_into_block ch (firstn n (skipn k core)) (import_work needs orig)) as H1.
+  destruct (merge_into_block (firstn n (skipn k core)) (import_work needs orig)) as [blk' rest].
+  cbn [fst] in H1. rewrite !flat_map_app, H1.
+  rewrite (slots_all_added ch (fun mw : path * list N => Import true (fst mw) [] (snd mw) 0)).
+  cbn [app]. rewrite (skipn_add k n core).
+  rewrite <- !flat_map_app. rewrite (firstn_skipn n (skipn k core)), (firstn_skipn k core). reflexivity.
+Qed.
+
+(* the stub table the annotation pass works with *)
+Definition merge_env (v : variant) (p s : list item) : env :=
+  let s' := filter_stub v s in
+  let c := collect_items (stub_imports s') s' c0 in
+  mkE (cfuns c) (cattrs c) (cclasses c) (global_names p).
+
+Lemma merge_slots v p s :
+  Forall2 (R (merge_env v p s)) (mslots p) (mslots (m_out (merge v p s))).
+Proof.
+  unfold merge_env, merge.
+  set (s' := filter_stub v s). set (imp := stub_imports s'). set (c := collect_items imp s' c0).
+  set (e := mkE _ _ _ _).
+  pose proof (R_apply_items e p a0 (Some [])) as Hcore.
+  destruct (apply_items e p a0) as [core st]. cbn [fst] in Hcore. cbn [m_out].
+  match goal with |- context [if ?c then _ else _] => destruct c end;
+    [|apply Forall2_refl; apply R_refl].
+  unfold mslots. rewrite !flat_map_app.
+  rewrite (slots_all_added (Some []) (fun kd : path * expr =>
+             AnnAssign (TName (hd 0 (fst kd))) (quote (global_names p) (visited st) (snd kd)) None)).
+  rewrite (slots_all_added (Some []) (fun kv : path * item => snd kv)).
+  rewrite (slots_all_added (Some []) (fun kd : N * item => snd kd)).
+  cbn [app]. rewrite flat_map_firstn_skipn, slots_add_imports. exact Hcore.
+Qed.
+
+Lemma Forall2_nth {A} (Q : A -> A -> Prop) (l l' : list A) :
+  Forall2 Q l l' -> forall i x, nth_error l i = Some x -> exists y, nth_error l' i = Some y /\ Q x y.
+Proof.
+  induction 1 as [|a b l l' Hab _ IH]; intros [|i] x; cbn [nth_error]; try discriminate.
+  - intros H; inversion H; subst; eauto.
+  - apply IH.
+Qed.
+
+Lemma Forall2_nth' {A} (Q : A -> A -> Prop) (l l' : list A) :
+  Forall2 Q l l' -> forall i y, nth_error l' i = Some y -> exists x, nth_error l i = Some x /\ Q x y.
+Proof.
+  induction 1 as [|a b l l' Hab _ IH]; intros [|i] x; cbn [nth_error]; try discriminate.
+  - intros H; inversion H; subst; eauto.
+  - apply IH.
+Qed.
+
+(* existing_kept *)
+Lemma existing_kept_lemma : forall v p s i sl a,
+  ann_at p i = Some sl -> s_ann sl = Some a ->
+  exists sl', ann_at (m_out (merge v p s)) i = Some sl' /\
+              s_qn sl' = s_qn sl /\ s_shape sl' = s_shape sl /\ s_which sl' = s_which sl /\
+              s_ann sl' = Some a.
+Proof.
+  intros v p s i sl a Hi Ha. unfold ann_at in *.
+  destruct (Forall2_nth _ _ _ (merge_slots v p s) i sl Hi) as (sl' & Hi' & (Hq & Hs & Hw) & Hann).
+  exists sl'. rewrite Ha in Hann. repeat split; auto.
+Qed.
+
+(* the merge neither creates nor removes nor moves an annotation slot *)
+Lemma slots_aligned_lemma : forall v p s i,
+  match ann_at p i, ann_at (m_out (merge v p s)) i with
+  | Some sl, Some sl' => s_qn sl' = s_qn sl /\ s_shape sl' = s_shape sl /\ s_which sl' = s_which sl
+  | None, None => True
+  | _, _ => False
+  end.
+Proof.
+  intros v p s i. unfold ann_at.
+  pose proof (merge_slots v p s) as H.
+  destruct (nth_error (mslots p) i) as [sl|] eqn:E1.
+  - destruct (Forall2_nth _ _ _ H i sl E1) as (sl' & Hi' & (Hq & Hs & Hw) & _). rewrite Hi'. auto.
+  - destruct (nth_error (mslots (m_out (merge v p s))) i) as [sl'|] eqn:E2; auto.
+    destruct (Forall2_nth' _ _ _ H i sl' E2) as (x & Hx & _). congruence.
+Qed.
+
+(* ------------------------------------------------------------------------------------------ *)
+(* no bare Any / Never: what the two stub transformers guarantee about the table *)
+
+Definition ok_ann (a : expr) : bool := negb (bare_any_never a) && not_dotted_any a.
+
+Lemma ok_dq a : ok_ann a = true -> bare_any_never (dq_expr a) = false.
+Proof.
+  unfold ok_ann. intros H. apply andb_true_iff in H. destruct H as [H1 H2].
+  destruct a; cbn [dq_expr bare_any_never not_dotted_any] in *.
+  - apply negb_true_iff in H1. exact H1.
+  - apply negb_true_iff in H2. exact H2.
+  - destruct (is_type_head a); reflexivity.
+  - reflexivity.
+  - reflexivity.
+Qed.
+
+Lemma forallb_flat_map {A B} (f : B -> bool) (g : A -> list B) (l : list A) :
+  forallb f (flat_map g l) = forallb (fun x => forallb f (g x)) l.
+Proof. induction l as [|x l IH]; cbn [flat_map forallb]; auto. rewrite forallb_app, IH. reflexivity. Qed.
+
+Lemma forallb_Forall_impl {A} (f g : A -> bool) (l : list A) :
+  Forall (fun x => f x = true -> g x = true) l -> forallb f l = true -> forallb g l = true.
+Proof.
+  induction 1 as [|x l Hx _ IH]; cbn [forallb]; auto. intros H. apply andb_true_iff in H.
+  destruct H. apply andb_true_iff. auto.
+Qed.
+
+Lemma is_any_or_never_bare a : is_any_or_never (Some (NExpr a)) = bare_any_never a.
+Proof. destruct a; reflexivity. Qed.
+
+Lemma strip_an_rets v it :
+  rets_ok not_dotted_any it = true -> forallb (rets_ok ok_ann) (strip_an v it) = true.
+Proof.
+  induction it using item_ind'; try (intros _; reflexivity).
+  - cbn [rets_ok strip_an]. intros Hr. destruct r as [a|]; cbn [option_map].
+    + rewrite is_any_or_never_bare. destruct (bare_any_never a) eqn:Eb; cbn [forallb rets_ok]; auto.
+      unfold ok_ann. rewrite Eb, Hr. reflexivity.
+    + reflexivity.
+  - cbn [rets_ok strip_an forallb]. intros Hb. rewrite andb_true_r, forallb_flat_map.
+    revert Hb. apply forallb_Forall_impl. exact H.
+  - cbn [strip_an]. unfold an_leave_annassign. destruct v; dmatch; reflexivity.
+  - cbn [rets_ok strip_an forallb]. intros Hb. rewrite andb_true_r, forallb_flat_map.
+    revert Hb. apply forallb_Forall_impl. exact H.
+Qed.
+
+Lemma strip_an_vars_fixed it :
+  vars_ok not_dotted_any it = true -> forallb (vars_ok ok_ann) (strip_an Fixed it) = true.
+Proof.
+  induction it using item_ind'; try (intros _; reflexivity).
+  - cbn [strip_an]. intros _. destruct (is_any_or_never _); reflexivity.
+  - cbn [vars_ok strip_an forallb]. intros Hb. rewrite andb_true_r, forallb_flat_map.
+    revert Hb. apply forallb_Forall_impl. exact H.
+  - cbn [vars_ok strip_an]. unfold an_leave_annassign. intros Ha.
+    rewrite is_any_or_never_bare. destruct (bare_any_never a) eqn:Eb.
+    + destruct v; reflexivity.
+    + cbn [forallb vars_ok]. unfold ok_ann. rewrite Eb, Ha. reflexivity.
+  - cbn [vars_ok strip_an forallb]. intros Hb. rewrite andb_true_r, forallb_flat_map.
+    revert Hb. apply forallb_Forall_impl. exact H.
+Qed.
+
+Lemma strip_tr_rets f it : rets_ok f it = true -> forallb (rets_ok f) (strip_tr it) = true.
+Proof.
+  induction it using item_ind'; try (intros _; reflexivity).
+  - cbn [rets_ok strip_tr forallb]. intros ->. reflexivity.
+  - cbn [rets_ok strip_tr forallb]. intros Hb. rewrite andb_true_r, forallb_flat_map.
+    revert Hb. apply forallb_Forall_impl. exact H.
+  - cbn [strip_tr]. intros _. destruct v; [reflexivity|]. destruct (is_trivial a); reflexivity.
+  - cbn [rets_ok strip_tr forallb]. intros Hb. rewrite andb_true_r, forallb_flat_map.
+    revert Hb. apply forallb_Forall_impl. exact H.
+Qed.
+
+Lemma strip_tr_vars f it : vars_ok f it = true -> forallb (vars_ok f) (strip_tr it) = true.
+Proof.
+  induction it using item_ind'; try (intros _; reflexivity).
+  - cbn [vars_ok strip_tr forallb]. intros Hb. rewrite andb_true_r, forallb_flat_map.
+    revert Hb. apply forallb_Forall_impl. exact H.
+  - cbn [vars_ok strip_tr]. intros Ha. destruct v; [cbn [forallb vars_ok]; rewrite Ha; reflexivity|].
+    destruct (is_trivial a); [reflexivity|]. cbn [forallb vars_ok]. rewrite Ha. reflexivity.
+  - cbn [vars_ok strip_tr forallb]. intros Hb. rewrite andb_true_r, forallb_flat_map.
+    revert Hb. apply forallb_Forall_impl. exact H.
+Qed.
+
+Lemma filter_stub_rets v s :
+  forallb (rets_ok not_dotted_any) s = true -> forallb (rets_ok ok_ann) (filter_stub v s) = true.
+Proof.
+  intros H. unfold filter_stub, strip_trivial, strip_any_never.
+  rewrite forallb_flat_map.
+  assert (H1 : forallb (rets_ok ok_ann) (flat_map (strip_an v) s) = true).
+  { rewrite forallb_flat_map. revert H. apply forallb_Forall_impl. apply Forall_forall. intros.
+    apply strip_an_rets; auto. }
+  revert H1. apply forallb_Forall_impl. apply Forall_forall. intros. apply strip_tr_rets; auto.
+Qed.
+
+Lemma filter_stub_vars_fixed s :
+  forallb (vars_ok not_dotted_any) s = true -> forallb (vars_ok ok_ann) (filter_stub Fixed s) = true.
+Proof.
+  intros H. unfold filter_stub, strip_trivial, strip_any_never.
+  rewrite forallb_flat_map.
+  assert (H1 : forallb (vars_ok ok_ann) (flat_map (strip_an Fixed) s) = true).
+  { rewrite forallb_flat_map. revert H. apply forallb_Forall_impl. apply Forall_forall. intros.
+    apply strip_an_vars_fixed; auto. }
+  revert H1. apply forallb_Forall_impl. apply Forall_forall. intros. apply strip_tr_vars; auto.
+Qed.
+
+Lemma forallb_Forall_true {A} (f : A -> bool) l : forallb f l = true -> Forall (fun x => f x = true) l.
+Proof. intros H. apply Forall_forall. intros x Hx. rewrite forallb_forall in H. auto. Qed.
+
+(* the collected table: returns / attributes are not bare Any/Never *)
+Lemma cfuns_clean imp s :
+  forallb (rets_ok ok_ann) s = true ->
+  forall key fa a0, In (key, fa) (cfuns (collect_items imp s c0)) -> snd fa = Some a0 ->
+                    bare_any_never a0 = false.
+Proof.
+  intros Hs.
+  apply collect_items_inv with
+    (I := fun c => forall key fa a0, In (key, fa) (cfuns c) -> snd fa = Some a0 -> bare_any_never a0 = false)
+    (G := fun it => rets_ok ok_ann it = true); try (intros; eauto; fail).
+  - intros n h bs b Hb. cbn [rets_ok] in Hb. apply forallb_Forall_true. exact Hb.
+  - intros i b Hb. cbn [rets_ok] in Hb. apply forallb_Forall_true. exact Hb.
+  - intros n d ps r b c Hg Hc key fa a0 Hin Ha. cbn [cfuns] in Hin. destruct Hin as [Heq|Hin]; [|eauto].
+    inversion Heq; subst. cbn [snd] in Ha. destruct r as [a|]; [|discriminate].
+    cbn [option_map] in Ha. inversion Ha; subst. cbn [rets_ok] in Hg. apply ok_dq. exact Hg.
+  - apply forallb_Forall_true. exact Hs.
+  - intros ? ? ? [].
+Qed.
+
+Lemma cattrs_clean imp s :
+  forallb (vars_ok ok_ann) s = true ->
+  forall q a0, In (q, a0) (cattrs (collect_items imp s c0)) -> bare_any_never a0 = false.
+Proof.
+  intros Hs.
+  apply collect_items_inv with
+    (I := fun c => forall q a0, In (q, a0) (cattrs c) -> bare_any_never a0 = false)
+    (G := fun it => vars_ok ok_ann it = true); try (intros; eauto; fail).
+  - intros n h bs b Hb. cbn [vars_ok] in Hb. apply forallb_Forall_true. exact Hb.
+  - intros i b Hb. cbn [vars_ok] in Hb. apply forallb_Forall_true. exact Hb.
+  - intros t a v c Hg Hc q a0 Hin. cbn [cattrs] in Hin. destruct Hin as [Heq|Hin]; [|eauto].
+    inversion Heq; subst. cbn [vars_ok] in Hg. apply ok_dq. exact Hg.
+  - apply forallb_Forall_true. exact Hs.
+  - intros ? ? [].
+Qed.
+
+Lemma same_ann_bare a a0 : same_ann a a0 -> bare_any_never a0 = false -> bare_any_never a = false.
+Proof. intros [->|(n & -> & ->)]; auto. Qed.
+
+(* ------------------------------------------------------------------------------------------ *)
+(* invariants of the annotation pass that only concern the recorded toplevel declarations *)
+
+Section ApplyInv.
+  Variable e : env.
+  Variable J : astate -> Prop.
+  Hypothesis J_ext : forall s s', decls s = decls s' -> clsdecl s = clsdecl s' -> J s -> J s'.
+  Hypothesis J_top : forall nm s, J s -> J (add_toplevel e nm s).
+
+  Lemma J_add_toplevels nms : forall s, J s -> J (add_toplevels e nms s).
+  Proof.
+    unfold add_toplevels. induction nms as [|o nms IH]; intros s Hs; cbn [fold_left]; auto.
+    apply IH. destruct o as [nm|]; auto. destruct (not_underscore nm); auto.
+  Qed.
+
+  Lemma J_apply_assign ts v s : J s -> J (snd (apply_assign e ts v s)).
+  Proof.
+    intros Hs. unfold apply_assign.
+    set (s0 := if vtv v then _ else s).
+    assert (H0 : J s0).
+    { subst s0. destruct (vtv v); auto. destruct ts as [|t ?]; auto. destruct (tname t); auto.
+      eapply J_ext; [| |exact Hs]; reflexivity. }
+    clearbody s0. clear Hs.
+    destruct ts as [|t [|t2 ts]]; cbn [snd]; try (apply J_add_toplevels; exact H0).
+    destruct t as [n|k nm i].
+    - cbn zeta. destruct (dict_get _ _ _); [destruct (mem_path _ _)|]; cbn [snd];
+        (eapply J_ext; [| |exact H0]; reflexivity).
+    - destruct k; [destruct nm| |]; cbn [snd]; try exact H0; try (apply J_add_toplevels; exact H0).
+      eapply J_ext; [| |exact H0]; reflexivity.
+  Qed.
+
+  Lemma J_apply_fun n d ps r b s : J s -> J (snd (apply_fun e n d ps r b s)).
+  Proof.
+    intros Hs. unfold apply_fun. dmatch; cbn [snd]; auto; (eapply J_ext; [| |exact Hs]; reflexivity).
+  Qed.
+
+  Lemma J_apply_items_from b :
+    Forall (fun it => forall s, J s -> J (snd (apply_item e it s))) b ->
+    forall s, J s -> J (snd (apply_items e b s)).
+  Proof.
+    induction 1 as [|x b Hx Hb IH]; intros s Hs; cbn [apply_items snd]; auto.
+    specialize (Hx s Hs). destruct (apply_item e x s) as [x' s'].
+    specialize (IH s' Hx). destruct (apply_items e b s') as [b' s'']. exact IH.
+  Qed.
+
+  Lemma J_apply_item it : forall s, J s -> J (snd (apply_item e it s)).
+  Proof.
+    induction it using item_ind'; intros s Hs; try exact Hs.
+    - apply J_apply_fun; auto.
+    - rewrite apply_item_Cls.
+      assert (H1 : J (a_push [n] s)) by (eapply J_ext; [| |exact Hs]; reflexivity).
+      pose proof (J_apply_items_from b H _ H1) as Hb.
+      destruct (apply_items e b (a_push [n] s)) as [b' s2]. cbn [snd] in Hb. cbn zeta.
+      dmatch; cbn [snd]; (eapply J_ext; [| |exact Hb]; reflexivity).
+    - apply J_apply_assign; auto.
+    - rewrite apply_item_Block.
+      pose proof (J_apply_items_from b H _ Hs) as Hb.
+      destruct (apply_items e b s) as [b' s']. exact Hb.
+  Qed.
+
+  Lemma J_apply_items b s : J s -> J (snd (apply_items e b s)).
+  Proof. apply J_apply_items_from. apply Forall_forall. intros. apply J_apply_item; auto. Qed.
+End ApplyInv.
+
+(* every recorded declaration carries an attribute annotation of the table *)
+Lemma decls_from_attrs e b :
+  forall nm a, In (nm, a) (decls (snd (apply_items e b a0))) -> exists q, In (q, a) (eattrs e).
+Proof.
+  apply J_apply_items with (J := fun s => forall nm a, In (nm, a) (decls s) -> exists q, In (q, a) (eattrs e)).
+  - intros s s' Hd _ H. rewrite <- Hd. exact H.
+  - intros nm s H. unfold add_toplevel. destruct (dict_get _ _ _) as [a|] eqn:Eg; auto.
+    cbn [decls]. intros nm' a' Hin. apply dict_set_In in Hin. destruct Hin as [Heq|Hin]; eauto.
+    inversion Heq; subst. apply dict_get_In in Eg. destruct Eg as (k' & Hk & _). eauto.
+  - intros ? ? [].
+Qed.
+
+(* ------------------------------------------------------------------------------------------ *)
+(* the module-level declarations of the output *)
+
+Definition decl_of (it : item) : list (path * expr) :=
+  match it with
+  | Added (AnnAssign t a None) => match tname t with Some nm => [(nm, a)] | None => [] end
+  | _ => []
+  end.
+
+Lemma added_decls_eq l : added_decls l = flat_map decl_of l.
+Proof. reflexivity. Qed.
+
+Lemma decl_of_apply_item e it s : decl_of (fst (apply_item e it s)) = decl_of it.
+Proof.
+  destruct it; try reflexivity.
+  - cbn [apply_item]. unfold apply_fun. dmatch; reflexivity.
+  - rewrite apply_item_Cls. destruct (apply_items e body (a_push [name] s)). cbn zeta. dmatch; reflexivity.
+  - cbn [apply_item]. unfold apply_assign. dmatch; reflexivity.
+  - rewrite apply_item_Block. destruct (apply_items e body s). reflexivity.
+Qed.
+
+Lemma added_decls_apply_items e b : forall s, added_decls (fst (apply_items e b s)) = added_decls b.
+Proof.
+  induction b as [|x b IH]; intros s; cbn [apply_items]; [reflexivity|].
+  pose proof (decl_of_apply_item e x s) as Hx. destruct (apply_item e x s) as [x' s'].
+  specialize (IH s'). destruct (apply_items e b s') as [b' s''].
+  rewrite !added_decls_eq in *. cbn [fst flat_map] in *. rewrite Hx, IH. reflexivity.
+Qed.
+
+Lemma decls_merge_into_block blk : forall work,
+  flat_map decl_of (fst (merge_into_block blk work)) = flat_map decl_of blk.
+Proof.
+  induction blk as [|x blk IH]; intros work; cbn [merge_into_block]; [reflexivity|].
+  assert (Hdef : forall w, flat_map decl_of (x :: fst (merge_into_block blk w)) = flat_map decl_of (x :: blk)).
+  { intros w. cbn [flat_map]. rewrite IH. reflexivity. }
+  destruct x; try (specialize (Hdef work); destruct (merge_into_block blk work); exact Hdef).
+  destruct from; [|specialize (Hdef work); destruct (merge_into_block blk work); exact Hdef].
+  destruct (dict_get path_eqb module work);
+    [|specialize (Hdef work); destruct (merge_into_block blk work); exact Hdef].
+  specialize (IH (filter (fun mw : path * list N => negb (path_eqb (fst mw) module)) work)).
+  destruct (merge_into_block blk _) as [r' w'']. cbn [fst flat_map decl_of app] in *. exact IH.
+Qed.
+
+Lemma added_decls_add_imports needs orig core : added_decls (add_imports needs orig core) = added_decls core.
+Proof.
+  rewrite !added_decls_eq. unfold add_imports.
+  set (k := skip_first orig). set (n := length (top_block orig)).
+  pose proof (decls_merge_into_block (firstn n (skipn k core)) (import_work needs orig)) as H1.
+  destruct (merge_into_block (firstn n (skipn k core)) (import_work needs orig)) as [blk' rest].
+  cbn [fst] in H1. rewrite !flat_map_app, H1.
+  assert (Ha : flat_map decl_of (map (fun mw : path * list N => Added (Import true (fst mw) [] (snd mw) 0)) rest) = []).
+  { induction rest; cbn [map flat_map decl_of app]; auto. }
+  rewrite Ha. cbn [app]. rewrite (skipn_add k n core).
+  rewrite <- !flat_map_app. rewrite (firstn_skipn n (skipn k core)), (firstn_skipn k core). reflexivity.
+Qed.
+
+Definition merge_state (v : variant) (p s : list item) : astate :=
+  snd (apply_items (merge_env v p s) p a0).
+
+Lemma added_decls_out v p s nm a :
+  In (nm, a) (added_decls (m_out (merge v p s))) ->
+  In (nm, a) (added_decls p) \/
+  exists nm0 a0, In (nm0, a0) (decls (merge_state v p s)) /\ nm = [hd 0 nm0] /\
+                 a = quote (global_names p) (visited (merge_state v p s)) a0.
+Proof.
+  unfold merge_state, merge_env, merge.
+  set (s' := filter_stub v s). set (imp := stub_imports s'). set (c := collect_items imp s' c0).
+  set (e := mkE _ _ _ _).
+  pose proof (added_decls_apply_items e p a0) as Hcore.
+  destruct (apply_items e p a0) as [core st]. cbn [fst snd] in *. cbn [m_out].
+  match goal with |- context [if ?c then _ else _] => destruct c end; [|auto].
+  rewrite added_decls_eq. rewrite !flat_map_app. rewrite !in_app_iff.
+  intros [H|[[H|[H|H]]|H]].
+  - left. rewrite <- Hcore, <- (added_decls_add_imports (cneeds c) p core), added_decls_eq.
+    rewrite <- (firstn_skipn (split_loc (add_imports (cneeds c) p core)) (add_imports (cneeds c) p core)).
+    rewrite flat_map_app. apply in_or_app. auto.
+  - right. apply in_flat_map in H. destruct H as (x & Hx & Hin).
+    apply in_map_iff in Hx. destruct Hx as ([nm0 a0'] & <- & Hd).
+    cbn [decl_of tname fst snd] in Hin. destruct Hin as [Heq|[]]. inversion Heq; subst. eauto.
+  - exfalso. apply in_flat_map in H. destruct H as (x & Hx & Hin).
+    apply in_map_iff in Hx. destruct Hx as (kv & <- & Hd).
+    apply filter_In in Hd. destruct Hd as [Hd _]. apply filter_In in Hd. destruct Hd as [Hd _].
+    pose proof (ctvs_assign imp s') as Ht. fold c in Ht. rewrite Forall_forall in Ht.
+    destruct (Ht _ Hd) as (ts & v0 & Heq & _). rewrite Heq in Hin. destruct Hin.
+  - exfalso. apply in_flat_map in H. destruct H as (x & Hx & Hin).
+    apply in_map_iff in Hx. destruct Hx as (kd & <- & Hd).
+    apply filter_In in Hd. destruct Hd as [Hd _].
+    pose proof (cclasses_cls imp s') as Ht. fold c in Ht. rewrite Forall_forall in Ht.
+    destruct (Ht _ Hd) as (n & h & bs & b & Heq). rewrite Heq in Hin. destruct Hin.
+  - left. rewrite <- Hcore, <- (added_decls_add_imports (cneeds c) p core), added_decls_eq.
+    rewrite <- (firstn_skipn (split_loc (add_imports (cneeds c) p core)) (add_imports (cneeds c) p core)).
+    rewrite flat_map_app. apply in_or_app. auto.
+Qed.
+
+(* ------------------------------------------------------------------------------------------ *)
+(* no_bare_any_never *)
+
+Lemma no_bare_returns_lemma : forall v p s i sl sl' a,
+  forallb (rets_ok not_dotted_any) s = true ->
+  ann_at p i = Some sl -> s_ann sl = None ->
+  ann_at (m_out (merge v p s)) i = Some sl' -> s_ann sl' = Some a ->
+  s_which sl = WRet -> bare_any_never a = false.
+Proof.
+  intros v p s i sl sl' a Hs Hi Hn Hi' Ha Hw. unfold ann_at in *.
+  destruct (Forall2_nth _ _ _ (merge_slots v p s) i sl Hi) as (sl2 & Hi2 & _ & Hann).
+  rewrite Hi' in Hi2. inversion Hi2; subst sl2. rewrite Hn, Ha in Hann.
+  destruct Hann as [Hr _]. destruct (Hr Hw) as (key & fa & a0 & Hin & Hfa & Hsame).
+  eapply same_ann_bare; [exact Hsame|].
+  unfold merge_env in Hin. cbn [efuns] in Hin.
+  eapply cfuns_clean; [|exact Hin|exact Hfa]. apply filter_stub_rets. exact Hs.
+Qed.
+
+Lemma no_bare_vars_fixed_lemma : forall p s i sl sl' a,
+  forallb (vars_ok not_dotted_any) s = true ->
+  ann_at p i = Some sl -> s_ann sl = None ->
+  ann_at (m_out (merge Fixed p s)) i = Some sl' -> s_ann sl' = Some a ->
+  s_which sl = WVar -> bare_any_never a = false.
+Proof.
+  intros p s i sl sl' a Hs Hi Hn Hi' Ha Hw. unfold ann_at in *.
+  destruct (Forall2_nth _ _ _ (merge_slots Fixed p s) i sl Hi) as (sl2 & Hi2 & _ & Hann).
+  rewrite Hi' in Hi2. inversion Hi2; subst sl2. rewrite Hn, Ha in Hann.
+  destruct Hann as [_ Hr]. destruct (Hr Hw) as (q & a0 & Hin & Hsame).
+  eapply same_ann_bare; [exact Hsame|].
+  unfold merge_env in Hin. cbn [eattrs] in Hin.
+  eapply cattrs_clean; [|exact Hin]. apply filter_stub_vars_fixed. exact Hs.
+Qed.
+
+Lemma no_bare_decls_fixed_lemma : forall p s nm a,
+  forallb (vars_ok not_dotted_any) s = true ->
+  In (nm, a) (added_decls (m_out (merge Fixed p s))) ->
+  In (nm, a) (added_decls p) \/ bare_any_never a = false.
+Proof.
+  intros p s nm a Hs Hin. apply added_decls_out in Hin. destruct Hin as [Hin|(nm0 & a0' & Hd & _ & ->)]; auto.
+  right. unfold merge_state in Hd. apply decls_from_attrs in Hd. destruct Hd as (q & Hq).
+  eapply same_ann_bare; [apply quote_same|].
+  unfold merge_env in Hq. cbn [eattrs] in Hq.
+  eapply cattrs_clean; [|exact Hq]. apply filter_stub_vars_fixed. exact Hs.
+Qed.
+
+(* ------------------------------------------------------------------------------------------ *)
+(* inserted_from_stub: without dotted names the dequalifier is the identity *)
+
+Section ExprInd.
+  Variable P : expr -> Prop.
+  Hypothesis HName : forall n, P (EName n).
+  Hypothesis HAttr : forall q n, P (EAttr q n).
+  Hypothesis HSub : forall h args, P h -> Forall P args -> P (ESub h args).
+  Hypothesis HStr : forall n, P (EStr n).
+  Hypothesis HOther : forall i subs, Forall P subs -> P (EOther i subs).
+  Fixpoint expr_ind' (e : expr) : P e :=
+    match e with
+    | EName n => HName n
+    | EAttr q n => HAttr q n
+    | ESub h args =>
+        HSub h args (expr_ind' h)
+             ((fix go (l : list expr) : Forall P l :=
+                 match l with [] => Forall_nil P | x :: r => Forall_cons x (expr_ind' x) (go r) end) args)
+    | EStr n => HStr n
+    | EOther i subs =>
+        HOther i subs
+               ((fix go (l : list expr) : Forall P l :=
+                   match l with [] => Forall_nil P | x :: r => Forall_cons x (expr_ind' x) (go r) end) subs)
+    end.
+End ExprInd.
+
+Lemma map_id_Forall {A} (f : A -> A) (g : A -> bool) (l : list A) :
+  Forall (fun x => g x = false -> f x = x) l -> existsb g l = false -> map f l = l.
+Proof.
+  induction 1 as [|x l Hx _ IH]; cbn [existsb map]; auto. intros H.
+  apply orb_false_iff in H. destruct H. rewrite Hx, IH; auto.
+Qed.
+
+Lemma dq_id a : expr_dotted a = false -> dq_expr a = a.
+Proof.
+  induction a using expr_ind'; cbn [expr_dotted dq_expr]; auto; try discriminate.
+  - intros H0. apply orb_false_iff in H0. destruct H0 as [H1 H2].
+    rewrite IHa by exact H1. destruct (is_type_head a); [reflexivity|].
+    rewrite (map_id_Forall dq_expr expr_dotted); auto.
+  - intros H0. rewrite (map_id_Forall dq_expr expr_dotted); auto.
+Qed.
+
+Lemma dq_param_id p : param_dotted p = false -> dq_param p = p.
+Proof.
+  unfold param_dotted, dq_param. destruct p as [n [a|] d]; cbn [pname pann pdef option_map]; auto.
+  intros H. rewrite dq_id; auto.
+Qed.
+
+Lemma dq_params_id ps : params_dotted ps = false -> dq_params ps = ps.
+Proof.
+  unfold params_dotted, dq_params. intros H.
+  apply orb_false_iff in H. destruct H as [H _]. apply orb_false_iff in H. destruct H as [_ H].
+  destruct ps as [po pp st kw ks]. cbn [posonly pos star kwonly kwstar] in *. f_equal.
+  apply (map_id_Forall dq_param param_dotted); auto.
+  apply Forall_forall. intros. apply dq_param_id; auto.
+Qed.
+
+Lemma concat_snoc {A} (l : list (list A)) (x : list A) : concat (l ++ [x]) = concat l ++ x.
+Proof. rewrite concat_app. cbn [concat]. rewrite app_nil_r. reflexivity. Qed.
+
+Lemma qname_snoc (l : list path) (x : path) : qname (l ++ [x]) = qname l ++ x.
+Proof. apply concat_snoc. Qed.
+
+(* the collected table only contains what the (filtered) stub says, under the true qualified names *)
+Definition csound (SD : list sdef) (c : cstate) : Prop :=
+  (forall key fa, In (key, fa) (cfuns c) ->
+     exists ps r, In (SFun (fst key) ps r) SD /\ snd key = shape_of ps /\ fa = (ps, r)) /\
+  (forall q a, In (q, a) (cattrs c) -> In (SVar q a) SD).
+
+Lemma existsb_false_Forall {A} (f : A -> bool) l : existsb f l = false -> Forall (fun x => f x = false) l.
+Proof.
+  induction l as [|x l IH]; cbn [existsb]; [constructor|]. intros H. apply orb_false_iff in H.
+  destruct H. constructor; auto.
+Qed.
+
+Lemma collect_items_sound_from imp SD b :
+  Forall (fun it => item_dotted it = false -> forall chain c,
+            qname (cq c) = chain -> incl (stub_defs chain it) SD -> csound SD c ->
+            cq (collect_item imp it c) = cq c /\ csound SD (collect_item imp it c)) b ->
+  existsb item_dotted b = false ->
+  forall chain c, qname (cq c) = chain -> incl (flat_map (stub_defs chain) b) SD -> csound SD c ->
+                  cq (collect_items imp b c) = cq c /\ csound SD (collect_items imp b c).
+Proof.
+  induction 1 as [|x b Hx _ IH]; intros Hd chain c Hq Hincl Hc; cbn [collect_items]; [auto|].
+  cbn [existsb] in Hd. apply orb_false_iff in Hd. destruct Hd as [Hd1 Hd2].
+  cbn [flat_map] in Hincl.
+  destruct (Hx Hd1 chain c Hq) as [Hq1 Hc1]; auto.
+  { intros y Hy. apply Hincl. apply in_or_app. auto. }
+  destruct (IH Hd2 chain (collect_item imp x c)) as [Hq2 Hc2]; auto.
+  { rewrite Hq1. exact Hq. }
+  { intros y Hy. apply Hincl. apply in_or_app. auto. }
+  split; auto. rewrite Hq2. exact Hq1.
+Qed.
+
+Lemma collect_item_sound imp SD it :
+  item_dotted it = false -> forall chain c,
+  qname (cq c) = chain -> incl (stub_defs chain it) SD -> csound SD c ->
+  cq (collect_item imp it c) = cq c /\ csound SD (collect_item imp it c).
+Proof.
+  induction it using item_ind'; intros Hd chain c Hq Hincl Hc; try (split; [reflexivity|exact Hc]).
+  - (* Fun *)
+    cbn [collect_item c_pop c_push c_use cq cfuns cattrs]. split; [apply removelast_snoc|].
+    cbn [item_dotted] in Hd. apply orb_false_iff in Hd. destruct Hd as [Hd1 Hd2].
+    destruct Hc as [Hf Ha]. split; [|exact Ha].
+    intros key fa [Heq|Hin]; [|auto]. inversion Heq; subst key fa. cbn [fst snd].
+    exists ps, r. rewrite qname_snoc, Hq. repeat split.
+    + apply Hincl. cbn [stub_defs]. left. reflexivity.
+    + rewrite dq_params_id by exact Hd1. destruct r as [a|]; cbn [option_map]; [rewrite dq_id; auto|auto].
+  - (* Cls *)
+    rewrite collect_item_Cls. cbn zeta.
+    cbn [item_dotted] in Hd. apply orb_false_iff in Hd. destruct Hd as [_ Hd2].
+    match goal with |- context [collect_items imp b ?x] => set (c3 := x) end.
+    destruct (collect_items_sound_from imp SD b H Hd2 (chain ++ [n]) c3) as [Hq2 Hc2].
+    + subst c3. cbn [cq c_use c_push]. rewrite qname_snoc, Hq. reflexivity.
+    + exact Hincl.
+    + subst c3. exact Hc.
+    + cbn [c_pop cq cfuns cattrs]. split; [|exact Hc2].
+      rewrite Hq2. subst c3. cbn [cq c_use c_push]. apply removelast_snoc.
+  - (* Assign *)
+    cbn [collect_item]. dmatch; split; try reflexivity; exact Hc.
+  - (* AnnAssign *)
+    cbn [collect_item]. destruct (tname t) as [nm|] eqn:Et.
+    + cbn [c_pop c_push c_use cq cfuns cattrs]. split; [apply removelast_snoc|].
+      destruct Hc as [Hf Ha]. split; [exact Hf|].
+      intros q a' [Heq|Hin]; [|auto]. inversion Heq; subst q a'.
+      cbn [item_dotted] in Hd. rewrite dq_id by exact Hd.
+      rewrite qname_snoc, Hq. apply Hincl. cbn [stub_defs]. rewrite Et. left. reflexivity.
+    + split; [reflexivity|exact Hc].
+  - (* Block *)
+    rewrite collect_item_Block. cbn [item_dotted] in Hd.
+    apply (collect_items_sound_from imp SD b H Hd chain c); auto.
+Qed.
+
+Lemma collect_sound imp s :
+  dotted_free s = true -> csound (stub_all s) (collect_items imp s c0).
+Proof.
+  intros Hd. unfold dotted_free in Hd. apply negb_true_iff in Hd.
+  destruct (collect_items_sound_from imp (stub_all s) s) with (chain := @nil N) (c := c0) as [_ H]; auto.
+  - apply Forall_forall. intros it _ Hi. apply collect_item_sound; auto.
+  - unfold stub_all. apply incl_refl.
+  - split; intros ? ? [].
+Qed.
+
+Lemma shape_eqb_eq a b : shape_eqb a b = true -> a = b.
+Proof.
+  destruct a as [a1 a2 a3 a4 a5], b as [b1 b2 b3 b4 b5]. unfold shape_eqb.
+  cbn [sh_pos sh_kw sh_posonly sh_star sh_kwstar].
+  intros H. repeat (apply andb_true_iff in H; destruct H as [H ?]).
+  apply Nat.eqb_eq in H. apply list_eqb_N_eq in H3. apply Nat.eqb_eq in H2.
+  apply eqb_prop in H1. apply eqb_prop in H0. subst. reflexivity.
+Qed.
+
+Lemma fkey_eqb_eq (a b : fkey) : fkey_eqb a b = true -> a = b.
+Proof.
+  destruct a as [a1 a2], b as [b1 b2]. unfold fkey_eqb. cbn [fst snd]. intros H.
+  apply andb_true_iff in H. destruct H as [H1 H2].
+  apply path_eqb_eq in H1. apply shape_eqb_eq in H2. subst. reflexivity.
+Qed.
+
+Definition env_sound (e : env) (SD : list sdef) : Prop :=
+  (forall key fa, dict_get fkey_eqb key (efuns e) = Some fa ->
+     exists ps r, In (SFun (fst key) ps r) SD /\ snd key = shape_of ps /\ fa = (ps, r)) /\
+  (forall q a, dict_get path_eqb q (eattrs e) = Some a -> In (SVar q a) SD).
+
+Lemma env_sound_merge v p s :
+  dotted_free (filter_stub v s) = true -> env_sound (merge_env v p s) (stub_all (filter_stub v s)).
+Proof.
+  intros Hd. unfold merge_env. cbn zeta.
+  destruct (collect_sound (stub_imports (filter_stub v s)) (filter_stub v s) Hd) as [Hf Ha].
+  split; cbn [efuns eattrs].
+  - intros key fa Hg. apply dict_get_In in Hg. destruct Hg as (k' & Hin & Hk).
+    apply fkey_eqb_eq in Hk. subst k'. auto.
+  - intros q a Hg. apply dict_get_In in Hg. destruct Hg as (k' & Hin & Hk).
+    apply path_eqb_eq in Hk. subst k'. auto.
+Qed.
+
+Definition RI (SD : list sdef) (sl sl' : slot) : Prop :=
+  same_key sl sl' /\
+  match s_ann sl with
+  | Some a => s_ann sl' = Some a
+  | None => match s_ann sl' with
+            | None => True
+            | Some a => exists a0, stub_gives SD sl a0 /\ same_ann a a0
+            end
+  end.
+
+Lemma RI_refl SD sl : RI SD sl sl.
+Proof. unfold RI, same_key. split; auto. destruct (s_ann sl); auto. Qed.
+
+Lemma RI_param SD qn sh w gn vis p a :
+  (forall a0, pann p = None -> a = Some a0 -> stub_gives SD (mkSlot qn (Some sh) w None) a0) ->
+  RI SD (mkSlot qn (Some sh) w (pann p)) (mkSlot qn (Some sh) w (pann (upd_param gn vis p a))).
+Proof.
+  intros Hg. unfold RI, same_key. cbn [s_qn s_shape s_which s_ann]. split; auto.
+  unfold upd_param. destruct (pann p) eqn:E; [rewrite E; reflexivity|].
+  destruct a as [a0|]; cbn [pann]; [|rewrite E; auto].
+  exists a0. split; [apply Hg; auto|apply quote_same].
+Qed.
+
+Lemma pslots_RI SD qn sh mk gn vis : forall ps qs i0,
+  (forall j q a0, nth_error qs j = Some q -> pann q = Some a0 ->
+                  stub_gives SD (mkSlot qn (Some sh) (mk (i0 + j)%nat) None) a0) ->
+  Forall2 (RI SD) (pslots qn sh mk i0 ps) (pslots qn sh mk i0 (upd_positional gn vis ps qs)).
+Proof.
+  induction ps as [|p ps IH]; intros [|q qs] i0 Hg; cbn [upd_positional pslots];
+    try (apply Forall2_refl; apply RI_refl).
+  constructor.
+  - apply RI_param. intros a0 _ Ha. specialize (Hg 0%nat q a0 eq_refl Ha).
+    rewrite Nat.add_0_r in Hg. exact Hg.
+  - apply IH. intros j q' a0 Hn Ha. specialize (Hg (S j) q' a0 Hn Ha).
+    rewrite Nat.add_succ_r in Hg. exact Hg.
+Qed.
+
+Lemma RI_fun_slots SD Q ps r gn vis qs r0 :
+  In (SFun Q qs r0) SD -> shape_of qs = shape_of ps ->
+  Forall2 (RI SD) (fun_slots (Some Q) ps r)
+          (fun_slots (Some Q) (update_parameters gn vis ps qs)
+                     (match r, r0 with None, Some a => Some (quote gn vis a) | _, _ => r end)).
+Proof.
+  intros Hin Hsh. unfold fun_slots. rewrite shape_update.
+  cbn [update_parameters posonly pos star kwonly kwstar].
+  assert (Hgive : forall w a0, w <> WVar -> ann_in qs r0 w = Some a0 ->
+                   stub_gives SD (mkSlot (Some Q) (Some (shape_of ps)) w None) a0).
+  { intros w a0 Hw Ha. unfold stub_gives. cbn [s_qn s_which s_shape].
+    destruct w; try congruence; exists qs, r0; rewrite Hsh; auto. }
+  constructor.
+  { unfold RI, same_key. cbn [s_qn s_shape s_which s_ann]. split; auto.
+    destruct r; auto. destruct r0 as [a0|]; auto.
+    exists a0. split; [|apply quote_same]. apply Hgive; [discriminate|reflexivity]. }
+  repeat apply Forall2_app; try (apply Forall2_refl; apply RI_refl).
+  - apply pslots_RI. intros j q a0 Hn Ha. apply Hgive; [discriminate|].
+    cbn [ann_in Nat.add]. rewrite Hn. exact Ha.
+  - apply pslots_RI. intros j q a0 Hn Ha. apply Hgive; [discriminate|].
+    cbn [ann_in Nat.add]. rewrite Hn. exact Ha.
+  - unfold upd_named. rewrite map_map.
+    induction (kwonly ps) as [|p l IH]; cbn [map]; constructor; auto.
+    rewrite upd_param_name. apply RI_param. intros a0 _ Ha. apply Hgive; [discriminate|exact Ha].
+Qed.
+
+Lemma qual_add_toplevel e nm s : qual (add_toplevel e nm s) = qual s.
+Proof. unfold add_toplevel. destruct (dict_get _ _ _); reflexivity. Qed.
+
+Lemma qual_add_toplevels e nms s : qual (add_toplevels e nms s) = qual s.
+Proof.
+  unfold add_toplevels. revert s. induction nms as [|o nms IH]; intros s; cbn [fold_left]; auto.
+  rewrite IH. destruct o as [nm|]; auto. destruct (not_underscore nm); auto. apply qual_add_toplevel.
+Qed.
+
+Lemma leak_false_back s s' : flags_le s s' -> leak s' = false -> leak s = false.
+Proof. intros (H & _) H'. destruct (leak s); auto. rewrite H in H'; auto. Qed.
+
+Lemma ins_apply_fun e SD n d ps r b s chain :
+  env_sound e SD -> qname (qual s) = chain ->
+  qual (snd (apply_fun e n d ps r b s)) = qual s /\
+  Forall2 (RI SD) (slots (Some chain) (Fun n d ps r b)) (slots (Some chain) (fst (apply_fun e n d ps r b s))).
+Proof.
+  intros [Hf _] Hq. unfold apply_fun.
+  destruct (dict_get fkey_eqb _ (efuns e)) as [fa|] eqn:Eg;
+    [|split; [reflexivity|apply Forall2_refl; apply RI_refl]].
+  destruct (match_signatures ps r fa); [|split; [reflexivity|apply Forall2_refl; apply RI_refl]].
+  cbn [fst snd]. split; [match goal with |- context [if ?c then _ else _] => destruct c end; reflexivity|].
+  apply Hf in Eg. cbn [fst snd] in Eg. destruct Eg as (qs & r0 & Hin & Hsh & ->).
+  rewrite qname_snoc, Hq in Hin. cbn [fst snd slots ext option_map].
+  apply Forall2_app; [|apply Forall2_refl; apply RI_refl].
+  apply RI_fun_slots; auto.
+Qed.
+
+Lemma ins_apply_assign e SD ts v s chain :
+  env_sound e SD -> qname (qual s) = chain ->
+  leak (snd (apply_assign e ts v s)) = false ->
+  qual (snd (apply_assign e ts v s)) = qual s /\
+  Forall2 (RI SD) (slots (Some chain) (Assign ts v)) (slots (Some chain) (fst (apply_assign e ts v s))).
+Proof.
+  intros [_ Ha] Hq. unfold apply_assign.
+  set (s0 := if vtv v then _ else s).
+  assert (H0 : qual s0 = qual s).
+  { subst s0. destruct (vtv v); auto. destruct ts as [|t ?]; auto. destruct (tname t); auto. }
+  rewrite <- H0. rewrite <- H0 in Hq. clearbody s0. clear H0.
+  destruct ts as [|t [|t2 ts]]; cbn [fst snd];
+    try (intros _; split; [apply qual_add_toplevels|apply Forall2_refl; apply RI_refl]).
+  destruct t as [n|k nm i].
+  - cbn zeta. destruct (dict_get path_eqb _ (eattrs e)) as [a|] eqn:Eg.
+    + destruct (mem_path _ _); cbn [fst snd leak]; [discriminate|].
+      intros _. cbn [a_pop a_push qual]. split; [apply removelast_snoc|].
+      cbn [slots tname ext option_map]. constructor; [|constructor].
+      unfold RI, same_key. cbn [s_qn s_shape s_which s_ann]. split; auto.
+      exists a. split; [|apply quote_same].
+      unfold stub_gives. cbn [s_qn s_which]. apply Ha in Eg. cbn [a_push qual] in Eg.
+      rewrite qname_snoc, Hq in Eg. exact Eg.
+    + cbn [fst snd]. intros _. cbn [a_pop a_push qual]. split; [apply removelast_snoc|].
+      apply Forall2_refl; apply RI_refl.
+  - destruct k; [destruct nm| |]; cbn [fst snd]; intros _;
+      (split; [|apply Forall2_refl; apply RI_refl]); auto.
+    + cbn [a_pop a_push qual]. apply removelast_snoc.
+    + apply qual_add_toplevels.
+Qed.
+
+Lemma ins_apply_items_from e SD b :
+  Forall (fun it => forall s chain, qname (qual s) = chain -> leak (snd (apply_item e it s)) = false ->
+            qual (snd (apply_item e it s)) = qual s /\
+            Forall2 (RI SD) (slots (Some chain) it) (slots (Some chain) (fst (apply_item e it s)))) b ->
+  forall s chain, qname (qual s) = chain -> leak (snd (apply_items e b s)) = false ->
+    qual (snd (apply_items e b s)) = qual s /\
+    Forall2 (RI SD) (flat_map (slots (Some chain)) b) (flat_map (slots (Some chain)) (fst (apply_items e b s))).
+Proof.
+  induction 1 as [|x b Hx _ IH]; intros s chain Hq; cbn [apply_items]; [intros _; split; [reflexivity|constructor]|].
+  specialize (Hx s chain Hq). destruct (apply_item e x s) as [x' s'] eqn:E1.
+  pose proof (apply_items_flags e b s') as Hfl.
+  specialize (IH s' chain). destruct (apply_items e b s') as [b' s''] eqn:E2.
+  cbn [fst snd] in *. intros Hl.
+  destruct Hx as [Hq1 Hs1]; [eapply leak_false_back; eauto|].
+  destruct IH as [Hq2 Hs2]; [rewrite Hq1; exact Hq|exact Hl|].
+  split; [rewrite Hq2; exact Hq1|]. cbn [flat_map]. apply Forall2_app; auto.
+Qed.
+
+Lemma ins_apply_item e SD : env_sound e SD -> forall it s chain,
+  qname (qual s) = chain -> leak (snd (apply_item e it s)) = false ->
+  qual (snd (apply_item e it s)) = qual s /\
+  Forall2 (RI SD) (slots (Some chain) it) (slots (Some chain) (fst (apply_item e it s))).
+Proof.
+  intros He. induction it using item_ind'; intros s chain Hq;
+    try (intros _; split; [reflexivity|apply Forall2_refl; apply RI_refl]).
+  - intros _. apply ins_apply_fun; auto.
+  - rewrite apply_item_Cls.
+    pose proof (ins_apply_items_from e SD b H (a_push [n] s) (chain ++ [n])) as Hb.
+    destruct (apply_items e b (a_push [n] s)) as [b' s2]. cbn [fst snd] in Hb. cbn zeta.
+    assert (Hq1 : qname (qual (a_push [n] s)) = chain ++ [n]).
+    { cbn [a_push qual]. rewrite qname_snoc, Hq. reflexivity. }
+    dmatch; cbn [fst snd leak a_pop qual]; intros Hl; destruct (Hb Hq1 Hl) as [Hq2 Hs2];
+      (split; [rewrite Hq2; cbn [a_push qual]; apply removelast_snoc|exact Hs2]).
+  - apply ins_apply_assign; auto.
+  - rewrite apply_item_Block.
+    pose proof (ins_apply_items_from e SD b H s chain Hq) as Hb.
+    destruct (apply_items e b s) as [b' s']. exact Hb.
+Qed.
+
+Lemma ins_apply_items e SD b s chain : env_sound e SD ->
+  qname (qual s) = chain -> leak (snd (apply_items e b s)) = false ->
+  qual (snd (apply_items e b s)) = qual s /\
+  Forall2 (RI SD) (flat_map (slots (Some chain)) b) (flat_map (slots (Some chain)) (fst (apply_items e b s))).
+Proof.
+  intros He. apply ins_apply_items_from. apply Forall_forall. intros. apply ins_apply_item; auto.
+Qed.
+
+Lemma merge_out_cases v p s :
+  m_out (merge v p s) = p \/
+  mslots (m_out (merge v p s)) = mslots (fst (apply_items (merge_env v p s) p a0)).
+Proof.
+  unfold merge_env, merge.
+  set (s' := filter_stub v s). set (imp := stub_imports s'). set (c := collect_items imp s' c0).
+  set (e := mkE _ _ _ _).
+  destruct (apply_items e p a0) as [core st]. cbn [fst m_out].
+  match goal with |- context [if ?c then _ else _] => destruct c end; [right|left; reflexivity].
+  unfold mslots. rewrite !flat_map_app.
+  rewrite (slots_all_added (Some []) (fun kd : path * expr =>
+             AnnAssign (TName (hd 0 (fst kd))) (quote (global_names p) (visited st) (snd kd)) None)).
+  rewrite (slots_all_added (Some []) (fun kv : path * item => snd kv)).
+  rewrite (slots_all_added (Some []) (fun kd : N * item => snd kd)).
+  cbn [app]. rewrite flat_map_firstn_skipn, slots_add_imports. reflexivity.
+Qed.
+
+Lemma merge_flags v p s :
+  m_leak (merge v p s) = leak (merge_state v p s) /\
+  m_clsdecl (merge v p s) = clsdecl (merge_state v p s) /\
+  (m_err (merge v p s) = false -> forallb (fun kd : path * expr => single (fst kd)) (decls (merge_state v p s)) = true).
+Proof.
+  unfold merge_state, merge_env, merge.
+  set (s' := filter_stub v s). set (imp := stub_imports s'). set (c := collect_items imp s' c0).
+  set (e := mkE _ _ _ _).
+  destruct (apply_items e p a0) as [core st]. cbn [snd m_leak m_clsdecl m_err].
+  repeat split; auto. intros H. apply orb_false_iff in H. destruct H as [_ H].
+  apply negb_false_iff in H. exact H.
+Qed.
+
+Lemma decls_sound e SD b : env_sound e SD ->
+  clsdecl (snd (apply_items e b a0)) = false ->
+  forall nm a, In (nm, a) (decls (snd (apply_items e b a0))) -> In (SVar nm a) SD.
+Proof.
+  intros [_ Ha].
+  apply J_apply_items with
+    (J := fun s => clsdecl s = false -> forall nm a, In (nm, a) (decls s) -> In (SVar nm a) SD).
+  - intros s s' Hd Hc H. rewrite <- Hd, <- Hc. exact H.
+  - intros nm s H. unfold add_toplevel. destruct (dict_get _ _ _) as [a|] eqn:Eg; auto.
+    cbn [decls clsdecl]. intros Hc. apply orb_false_iff in Hc. destruct Hc as [Hc1 Hc2].
+    apply negb_false_iff in Hc2.
+    intros nm' a' Hin. apply dict_set_In in Hin. destruct Hin as [Heq|Hin]; [|auto].
+    inversion Heq; subst. apply Ha in Eg. rewrite qname_snoc in Eg.
+    destruct (qname (qual s)); [|discriminate]. exact Eg.
+  - intros _ ? ? [].
+Qed.
+
+Lemma inserted_from_stub_lemma : forall v p s,
+  dotted_free (filter_stub v s) = true ->
+  m_leak (merge v p s) = false -> m_clsdecl (merge v p s) = false -> m_err (merge v p s) = false ->
+  (forall i sl sl' a,
+     ann_at p i = Some sl -> s_ann sl = None ->
+     ann_at (m_out (merge v p s)) i = Some sl' -> s_ann sl' = Some a ->
+     exists a0, stub_gives (stub_all (filter_stub v s)) sl a0 /\ same_ann a a0) /\
+  (forall nm a,
+     In (nm, a) (added_decls (m_out (merge v p s))) ->
+     In (nm, a) (added_decls p) \/
+     exists a0, In (SVar nm a0) (stub_all (filter_stub v s)) /\ same_ann a a0).
+Proof.
+  intros v p s Hd Hl Hc He.
+  pose proof (env_sound_merge v p s Hd) as Hsound.
+  destruct (merge_flags v p s) as (Hl' & Hc' & He'). rewrite Hl' in Hl. rewrite Hc' in Hc.
+  specialize (He' He). unfold merge_state in *.
+  split.
+  - intros i sl sl' a Hi Hn Hi' Ha. unfold ann_at in *.
+    destruct (merge_out_cases v p s) as [Hout|Hout].
+    + rewrite Hout in Hi'. rewrite Hi in Hi'. inversion Hi'; subst. congruence.
+    + rewrite Hout in Hi'.
+      destruct (ins_apply_items (merge_env v p s) _ p a0 [] Hsound eq_refl Hl) as [_ HF].
+      destruct (Forall2_nth _ _ _ HF i sl Hi) as (sl2 & Hi2 & _ & Hann).
+      unfold mslots in Hi'. rewrite Hi' in Hi2. inversion Hi2; subst sl2.
+      rewrite Hn, Ha in Hann. exact Hann.
+  - intros nm a Hin. apply added_decls_out in Hin.
+    destruct Hin as [Hin|(nm0 & a0' & Hdin & -> & ->)]; [left; exact Hin|right].
+    unfold merge_state in Hdin.
+    pose proof (decls_sound _ _ p Hsound Hc nm0 a0' Hdin) as Hsd.
+    rewrite forallb_forall in He'. specialize (He' _ Hdin). cbn [fst] in He'.
+    destruct nm0 as [|n [|? ?]]; try discriminate. cbn [hd].
+    exists a0'. split; [exact Hsd|apply quote_same].
+Qed.
